@@ -398,3 +398,24 @@ type HeightCall struct {
 	Chain    string
 	Height   uint32
 }
+
+// ExternalOpening lets a scripted (adversarial) maker put an opening
+// transaction on a chain: outputs before the swap output, then an output with
+// the given script and value. It returns txid, tx hex and the swap output index.
+func (w *World) ExternalOpening(chain string, script string, value uint64, before int, extra []Out) (txid, txHex string, vout uint32, err error) {
+	w.mu.Lock()
+	defer w.mu.Unlock()
+	tt := &tokenTx{Nonce: w.nextNonce(), Version: 2, Kind: "opening", Ins: []In{{Path: "wallet"}}}
+	for i := 0; i < before; i++ {
+		tt.Outs = append(tt.Outs, Out{Script: fmt.Sprintf("e0e0e0%02x", i), Value: 4000 + uint64(i)})
+	}
+	vout = uint32(len(tt.Outs))
+	tt.Outs = append(tt.Outs, Out{Script: script, Value: value})
+	tt.Outs = append(tt.Outs, extra...)
+	txHex, txid = EncodeToken(tt)
+	tx, _ := DecodeToken(txHex)
+	if err := w.Chains[chain].Accept(tx); err != nil {
+		return "", "", 0, err
+	}
+	return txid, txHex, vout, nil
+}
